@@ -20,6 +20,7 @@ import EasyMl.Lemmas.Swap
 import EasyMl.Lemmas.MapZip
 import EasyMl.Lemmas.MapMut
 import EasyMl.Lemmas.EqualBy
+import EasyMl.Lemmas.History
 
 namespace EasyMl.C13
 open EasyMl EasyMl.Spec
@@ -535,5 +536,35 @@ example :
     let fin := (Tensor.ofVal ⟨[("a", 2)], [some 1, some 2]⟩).view
     tensorEqualityBy rel nan nan = false ∧ tensorSimilarityBy rel nan nan = false ∧
     tensorEqualityBy rel fin fin = true ∧ tensorSimilarityBy rel fin fin = true := by decide
+
+/-! ### the representation invariant over all histories of in-place transformations -/
+
+/-- **`strides` stay the row-major strides of `shape`, the data stay `Π lengths` long, names
+    unique, lengths ≥ 1 — after every history** of `reorder_mut`, `transpose_mut`, `reshape_mut`,
+    `rename`, `map_mut`, `map_mut_with_index` (square or not, any dimensionality; argument arrays
+    have the tensor's dimensionality, as their types say) that does not panic.  Hence every
+    consumer that reads `data` in storage order (`elementwise*` with the tensor on the left,
+    `map_with_index`, `into_matrix`, `reshape_*`, the arithmetic operators' direct iterators,
+    `first`) sees the logical row-major content: an implementation that permutes the strides and
+    leaves the data in place is not a refinement of this model. -/
+theorem tensor_strides_row_major_inv [Inhabited ν] (steps : List (InPlace ν α)) (shape : Shape ν)
+    (data : List α) (t t' : Tensor ν α) (ht : Tensor.tryFrom shape data = some t)
+    (harity : ∀ step ∈ steps, ∀ k, step.arity = some k → k = shape.length)
+    (h : t.applyAll steps = .ok t') :
+    t'.strides = computeStrides t'.shape ∧ t'.shape.length = shape.length ∧
+    Tensor.tryFrom t'.shape t'.data = some t' ∧
+    materialise t'.view.lazy = { shape := t'.shape, elems := t'.data } := by
+  obtain ⟨s', d', hl, ht'⟩ := applyAll_valid steps shape data t t' ht harity h
+  obtain ⟨_, he⟩ := (tryFrom_eq_some_iff s' d' t').1 ht'
+  have hs : t'.shape = s' := by rw [he]
+  have hd : t'.data = d' := by rw [he]
+  refine ⟨by rw [he], by rw [hs, hl], by rw [hs, hd]; exact ht', ?_⟩
+  rw [hs, hd]; exact materialise_view s' d' t' ht'
+
+/-- Non-vacuity: a square tensor reordered in place twice and reshaped. -/
+example :
+    ∃ t, Tensor.tryFrom [("a", 2), ("b", 2)] [1, 2, 3, 4] = some t ∧
+      t.applyAll [.reorder ["b", "a"], .transpose ["a", "b"], .reshape [("x", 4), ("y", 1)]] =
+        .ok (Tensor.ofVal ⟨[("x", 4), ("y", 1)], [1, 2, 3, 4]⟩) := ⟨_, rfl, rfl⟩
 
 end EasyMl.C13
